@@ -47,7 +47,40 @@ func (c *streamCase) render() any {
 
 var bom = []byte{0xEF, 0xBB, 0xBF}
 
-var maxIntBoundary = regexp.MustCompile(`(^|[^0-9.eE+\-])922337203685477580[0-7]([^0-9]|$)`)
+var maxIntBoundary = regexp.MustCompile(`922337203685477580[0-7]`)
+
+// hasMaxIntBoundaryLiteral: some number literal has the positive integer part
+// 9223372036854775800..9223372036854775807 (19 digits, not preceded by a digit or a minus sign and not
+// itself the fraction or exponent of a number).
+func hasMaxIntBoundaryLiteral(in []byte) bool {
+	dig := func(i int) bool { return i >= 0 && i < len(in) && '0' <= in[i] && in[i] <= '9' }
+	at := func(i int) byte {
+		if i >= 0 && i < len(in) {
+			return in[i]
+		}
+		return 0
+	}
+	for _, m := range maxIntBoundary.FindAllIndex(in, -1) {
+		k, e := m[0], m[1]
+		if dig(e) || dig(k-1) {
+			continue
+		}
+		switch at(k - 1) {
+		case '-':
+			continue // negative numbers never take the inline digit loop
+		case '.', 'e', 'E':
+			if dig(k - 2) {
+				continue
+			}
+		case '+':
+			if (at(k-2) == 'e' || at(k-2) == 'E') && dig(k-3) {
+				continue
+			}
+		}
+		return true
+	}
+	return false
+}
 
 // features are structural attributes of the input that known-finding signatures refer to.
 func (c *streamCase) features() map[string]any {
@@ -57,7 +90,7 @@ func (c *streamCase) features() map[string]any {
 	f := map[string]any{}
 	// a positive integer part 9223372036854775800..9223372036854775807 (pinned by the repo's own tests
 	// to parse as json.Number from a whole buffer and as int64 byte by byte)
-	f["maxint_boundary_literal"] = maxIntBoundary.Match(c.Input)
+	f["maxint_boundary_literal"] = hasMaxIntBoundaryLiteral(c.Input)
 	if c.SEN {
 		depth, inStr, esc := 0, byte(0), false
 		topComment, topPlus := false, false
